@@ -191,23 +191,25 @@ def gen_cases(tier, g: G.G, exe=None, ext='-'):
         cases += r.sample(list(G.stream_userfuncs(g, u2)), 500)
         nrand, nmal = 2000, 800
     else:
-        cases += list(G.stream_binops(g, u1))
-        rest = [x for x in u2 if x not in u1]
+        sc1 = [x for x in u1 if x[0] in g.all_scalars] + [x for x in u1 if x[0] not in g.all_scalars][:14]
+        cases += list(G.stream_binops(g, sc1))                        # exhaustive: infix ops x (all scalars + colls)^2
+        rest = [x for x in u2 if x not in sc1]
         for name in g.infix:
             for (_, a) in rest:
-                for (_, b) in u1:
+                for (_, b) in u0:
                     cases.append(('binop', g.op(name, a, b)))
                     cases.append(('binop', g.op(name, b, a)))
+                cases.append(('binop', g.op(name, a, a)))
         cases += list(G.stream_prefix(g, u2))
-        cases += list(G.stream_setlike(g, u2))
+        cases += list(G.stream_setlike(g, u2))                        # exhaustive: set forms x universe^2
         cases += list(G.stream_triples(g))
-        cases += list(G.stream_funcs(g, u2, u1[:30]))
+        cases += list(G.stream_funcs(g, u2, u0 + u1[-10:]))
         cases += list(G.stream_recursive(g))
         cases += list(G.stream_indirection(g, u2))
         cases += list(G.stream_paths(g, u2))
         cases += list(G.stream_casts(g, u2))
         cases += list(G.stream_userfuncs(g, u2))
-        nrand, nmal = 60000, 15000
+        nrand, nmal = 40000, 10000
     # random typed trees: mostly valid.  Candidates are drawn from the type-family-biased generator
     # and, when the model binary is available, selected so that about 3/4 of the stream is accepted
     # by the model (the real compiler is run on every selected case all the same).
